@@ -273,6 +273,12 @@ func (m *MTProto) startReadingResponses(ctx context.Context) {
 				case err == context.Canceled:
 					return
 				case err == io.EOF, errors.As(err, &netErr):
+					if ctx.Err() != nil {
+						// routines are stopped already (Disconnect, or Reconnect called by another goroutine,
+						// e.g. by migration to another DC): connection of this routine is not actual anymore,
+						// reconnecting here would break the new one
+						return
+					}
 					// connection is closed or broken
 					err = m.Reconnect()
 					if err != nil {
